@@ -778,6 +778,9 @@ func runC14(r *Run) {
 	if r.NumViolations() == 0 {
 		c14OwnServeContext(r)
 	}
+	if r.NumViolations() == 0 {
+		c14CancelWithUndeliveredMessage(r)
+	}
 	if r.Want("failedopen") && r.NumViolations() == 0 {
 		c14Dedicated(r, "failedopen")
 	}
